@@ -58,6 +58,21 @@ func main() {
 			}
 			fmt.Println(strings.TrimPrefix(k, modPath+"/internal/"))
 		}
+	case "replay-run":
+		// run the special replay driver of an obligation on the current tree
+		P, err := loadProgram(repoDir())
+		if err != nil {
+			fmt.Fprintln(os.Stderr, err)
+			os.Exit(2)
+		}
+		drv, ok := specialReplays[os.Args[2]]
+		if !ok {
+			fmt.Fprintln(os.Stderr, "no special replay for", os.Args[2])
+			os.Exit(2)
+		}
+		_, out, reproduced, err := drv(P, &ObligResult{Name: os.Args[2], Model: map[string]string{}})
+		fmt.Println(out)
+		fmt.Println("reproduced:", reproduced, "err:", err)
 	case "fn":
 		// verify single functions and print every obligation (debugging aid)
 		P, err := loadProgram(repoDir())
